@@ -339,6 +339,9 @@ inductive Op
   | identify (id : Nat) (h : Str)
   /-- `user unidentify`: `clearAuth()`, `setUser` -/
   | unidentify (id : Nat)
+  /-- `IrcUser.clearAuth()` on the stored record and nothing else (the method invalidates the cached
+  lookups of its login hostmasks itself; `user unidentify` calls `setUser` afterwards) -/
+  | logout (id : Nat)
   /-- `user changename`: refuse when `getUserId(new)` finds somebody, else rename and `setUser` -/
   | rename (id : Nat) (name : Str)
   /-- `user set secure`: flip the flag, `setUser` -/
@@ -358,6 +361,11 @@ inductive Op
   | tick (dt : Nat)
   /-- `getUserId(s)` -/
   | lookup (s : Str)
+  /-- the harness reports which logins account `id` still holds physically: expired logins are
+  removed lazily, whenever a scan passes them, and the model does not follow that (no read of the
+  property can tell) — but `IrcUser.clearAuth()` invalidates the cache for exactly the entries
+  that are still there.  Only expired entries may be reported gone. -/
+  | pruned (id : Nat) (kept : List (Int × Str))
   /-- the harness reports the enumeration order of a user's hostmask set -/
   | order (id : Nat) (masks : List Str)
 deriving Repr
@@ -462,6 +470,7 @@ def step (st : St) : Op → St × Out
       let st1 := clearAuth st u
       let s := setUser st1 { u with auth := [] }
       (s.1, outOfUnit s.2)
+  | .logout id => withUser st id fun u => (clearAuth st u, .done)
   | .rename id name => withUser st id fun _ =>
       let g := getUserId st name
       match g.2 with
@@ -519,6 +528,10 @@ def step (st : St) : Op → St × Out
   | .lookup s =>
     let g := getUserId st s
     (g.1, match g.2 with | .ok id => .id id | .error e => .err e)
+  | .pruned id kept => withUser st id fun u =>
+      if u.auth.all (fun e => kept.contains e || !authLive st.db.timeout st.now e) then
+        ({ st with db := st.db.putUser { u with auth := u.auth.filter (fun e => kept.contains e) } }, .done)
+      else (st, .noUser)
   | .order id masks => withUser st id fun u =>
       -- only a permutation of the same set is accepted
       if masks.length == u.hostmasks.length && masks.all (fun m => u.hostmasks.contains m) &&
